@@ -48,6 +48,21 @@ theorem SimPost_step {s : DState} {w : Circ} {rc : RC} {a : Bytes} {snk : Sink}
     rw [heq F]
     exact h7 F
 
+/-- the window reads of `mkCtx` on the circular window never report `eof` -/
+theorem mkCtx_litRow_ne_eof (s : DState) (w : Circ) : (s.mkCtx w).litRow ≠ .error .eof := by
+  intro h
+  simp only [DState.mkCtx, LzBuf.lastOr, Circ.lastOr, Circ.offsetOf, subChk, oob, LzBuf.len] at h
+  repeat' split at h
+  all_goals simp [bind, Except.bind, pure, Except.pure] at h
+  all_goals (try split at h) <;> simp at h
+
+theorem mkCtx_matchByte_ne_eof (s : DState) (w : Circ) : (s.mkCtx w).matchByte ≠ .error .eof := by
+  intro h
+  simp only [DState.mkCtx, LzBuf.lastN, Circ.lastN, Circ.offsetOf, subChk] at h
+  repeat' split at h
+  all_goals simp [bind, Except.bind, pure, Except.pure] at h
+  all_goals (try split at h) <;> simp at h
+
 theorem not_eof (hN : Need20) {s : DState} {w : Circ} {rc : RC} (hI : Inv s w rc) (X : Bytes)
     (hc : ¬ (X.length < 20 ∧ tryProcessNext s w X rc = false)) :
     dec1 s w rc ⟨X, false⟩ ≠ .error .eof := by
@@ -60,7 +75,8 @@ theorem not_eof (hN : Need20) {s : DState} {w : Circ} {rc : RC} (hI : Inv s w rc
     obtain ⟨r, hr⟩ := (try_iff w X rc hI.ds.probs).mp ht
     rw [hr] at he
     cases he
-  · exact hN _ _ _ _ hI.ds.probs hI.rc (by omega) he
+  · exact hN _ _ _ _ (mkCtx_litRow_ne_eof s w) (mkCtx_matchByte_ne_eof s w) hI.ds.probs hI.rc
+      (by omega) he
 
 theorem stop_true_cases {s : DState} {w : Circ} {rc : RC} {a : Bytes}
     (h : stopB .stream s w rc a = true) : StopNow s w ∨ (a = [] ∧ s.partialBuf = []) := by
